@@ -16,8 +16,11 @@ pub fn campaign(target: &str, seed: u64, runs: u64, max_len: u32, seeds: &[std::
             let _ = std::fs::copy(p, format!("{}/{}", corpus, n.to_string_lossy()));
         }
     }
+    let home = crate::runner::verif_home();
+    let fuzz_dir = format!("{}/fuzz", home);
+    let fuzz_target_dir = format!("{}/fuzz/target", home);
     let out = std::process::Command::new("cargo")
-        .args(["+nightly", "fuzz", "run", "--fuzz-dir", "/verif/fuzz", "--target-dir", "/verif/fuzz/target", "--sanitizer", "none", target, &corpus, "--"])
+        .args(["+nightly", "fuzz", "run", "--fuzz-dir", &fuzz_dir, "--target-dir", &fuzz_target_dir, "--sanitizer", "none", target, &corpus, "--"])
         .arg(format!("-runs={}", runs))
         .arg(format!("-seed={}", (seed % 1_000_000) + 1))
         .arg(format!("-max_len={}", max_len))
@@ -39,11 +42,11 @@ pub fn campaign(target: &str, seed: u64, runs: u64, max_len: u32, seeds: &[std::
                     if let Ok(d) = std::fs::read(e.path()) {
                         crashed = true;
                         let mut f = classify(&d);
-                        let keep = format!("/verif/replays/fuzz-{}-{}", target, e.file_name().to_string_lossy());
-                        let _ = std::fs::create_dir_all("/verif/replays");
+                        let keep = format!("{}/replays/fuzz-{}-{}", home, target, e.file_name().to_string_lossy());
+                        let _ = std::fs::create_dir_all(format!("{}/replays", home));
                         let _ = std::fs::copy(e.path(), &keep);
                         let panic_line = text.lines().find(|l| l.contains("panicked at")).unwrap_or("").to_string();
-                        f.msg = format!("{} [{}; reproduce: cargo +nightly fuzz run --fuzz-dir /verif/fuzz --sanitizer none {} {}]", f.msg, panic_line.trim(), target, keep);
+                        f.msg = format!("{} [{}; reproduce: cargo +nightly fuzz run --fuzz-dir {} --sanitizer none {} {}]", f.msg, panic_line.trim(), fuzz_dir, target, keep);
                         let case = Case { blobs: vec![d], recs: vec![], ..crate::ops::sample_case() };
                         rep.violations.push(crate::runner::Violation { key: f.key, msg: f.msg, case: serde_json::to_value(&case).unwrap(), origin: format!("libFuzzer {}", target) });
                     }
